@@ -23,6 +23,8 @@ func checkC16(c *Ctx) {
 	c.Rule("R16.1", "column order and presence guards in consoleEncoder.EncodeEntry", 12)
 	c.Rule("R16.2", "separators only between non-empty parts; constructor defaults", 2)
 	c.Rule("R16.3", "context rendered by a clone of the spaced JSON encoder, namespaces closed before the emptiness test, braces, released", 3)
+	c.Rule("R16.5", "the console encoder's Clone carries context bytes, configuration, spacing and the open-namespace count (the context it later renders is the JSON encoder's)", 2)
+	c7CloneCarries(c, "R16.5")
 	c.Rule("R16.4", "optional column encoders are nil-guarded", 6)
 
 	fn := c.Method(CorePath, "consoleEncoder", "EncodeEntry")
